@@ -9,7 +9,7 @@
 (* generator of the small states that /verif/harness replays against the   *)
 (* real crate (every reachable state is printed once as a JSON line).      *)
 (***************************************************************************)
-EXTENDS XotForest, TLC, Json
+EXTENDS XotForestL2, TLC, Json
 
 CONSTANTS MaxNode,      \* bound on the number of ids ever allocated
           Names,        \* set of <<ns, ln>>
@@ -86,6 +86,10 @@ Footprint(e, N) ==
 FrameHolds ==
     \A e \in Calls : \A o \in EnumAllowed(e, F.n, F.cons) :
         {z \in 1..Len(F.n) : z <= Len(o.n) /\ o.n[z] # F.n[z]} \subseteq Footprint(e, F.n)
+
+\* The transcription of src/manipulation.rs (XotForestL2) does, on every reachable forest and for every argument
+\* tuple, something L1 allows.
+L2MovesRefine == \A e \in {c \in Calls : c.op \in L2Ops} : L2Allowed(e, F.n, F.cons)
 
 \* every call has at least one allowed outcome (L1 is total)
 Total == \A e \in Calls : EnumAllowed(e, F.n, F.cons) # {}
